@@ -2,7 +2,7 @@
    case the implementation ran (directory layout as filepath.Walk listed it, loader configuration, what the
    parent loader binds, operation sequence). *)
 From Coq Require Import ZArith NArith Bool List.
-From PcoreV Require Import Model.Base Model.FileLoader Model.FileLoaderText Proofs.FileLoaderIff Proofs.FileLoaderMember.
+From PcoreV Require Import Model.Base Model.FileLoader Model.FileLoaderText Proofs.FileLoaderIff Proofs.FileLoaderMember Proofs.FileLoaderMemberG.
 Import ListNotations.
 Local Open Scope nat_scope.
 
@@ -69,8 +69,15 @@ Definition c15_iff_ok (c : ccase) : bool := iff_ok_from (cc_world c) (cc_ops c) 
 Definition c15_mem_ok (c : ccase) : bool :=
   negb (members_wf_b (cc_world c)) || mem_ok_from (cc_world c) (cc_ops c) (cc_outs c).
 
+(* C15_typeset_member_never_missed_claimed_dec evaluated on the OBSERVED outcomes (Proofs/FileLoaderMemberG.v: mem_ok3_from):
+   the same with the weaker guard member_claim3_b - a TypeSet file of the loader may declare a member named like the
+   TypeSet itself (corpus member-and-file-1-N), and the member may also have a definition file of its own in a consulted
+   loader (corpus member-and-file-0-N, global-typeset); implies c15_mem_ok's verdict on every name that one accepts *)
+Definition c15_mem3_ok (c : ccase) : bool :=
+  negb (members_wf_b (cc_world c)) || mem_ok3_from (cc_world c) (cc_ops c) (cc_outs c).
+
 Definition c15_check (c : ccase) : bool :=
   world_ok (cc_world c) && forallb (text_ok (cc_world c)) (cc_texts c) &&
-  list_eqb outr_eqb (c15_model c) (cc_outs c) && c15_iff_ok c && c15_mem_ok c.
+  list_eqb outr_eqb (c15_model c) (cc_outs c) && c15_iff_ok c && c15_mem_ok c && c15_mem3_ok c.
 
 Definition c15_mismatches (cs : list ccase) : list N := failing c15_check cs.
